@@ -569,9 +569,28 @@ pub fn run(seed: u64, count: usize, out: &str) -> Report {
     let mut w = std::io::BufWriter::new(file);
     for i in 0..count {
         let mut rng = master.fork();
-        let v = if rng.chance(3, 5) { Version::V3 } else { Version::V4 };
+        // one case in eight: small streams that nearly fill one MiniFAT sector (128 entries in
+        // version 3), so that the mutation history afterwards crosses that boundary - with the
+        // mini stream ending in free mini sectors most of the time
+        let nearly_full = rng.chance(1, 8);
+        let v = if nearly_full || rng.chance(3, 5) { Version::V3 } else { Version::V4 };
         let mut budget = 14;
-        let kids = gen_tree(&mut rng, 0, &mut budget);
+        let kids = if nearly_full {
+            let mut used = Vec::new();
+            let target = 108 + rng.below(18) as usize; // mini sectors
+            let mut left = target;
+            let mut ks = Vec::new();
+            while left > 0 {
+                let n = left.min(1 + rng.below(60) as usize);
+                left -= n;
+                let len = n * 64 - rng.below(64) as usize;
+                let tag = rng.below(200) as usize;
+                ks.push(Node::Stream { name: gen_name(&mut rng, &mut used), state: 0, data: (0..len).map(|i| ((i * 7 + tag) % 251 + 1) as u8).collect() });
+            }
+            ks
+        } else {
+            gen_tree(&mut rng, 0, &mut budget)
+        };
         let root_meta = (
             if rng.chance(1, 2) { 0u128 } else { rng.next() as u128 },
             *rng.pick(&[0u32, 3]),
